@@ -119,3 +119,51 @@ def c16_dna_left_padding(n, width, p):
 ''', requires={"fits": "n < ipow(4, width)"},
         loops={1: dict(invariant={"range": "0 <= j <= width + p and len(back) == width + p and len(padded) == width + p",
                                   "equal-so-far": "forall(lambda q: back[q] == padded[q], 0, j)"}, variant="width + p - j")})
+
+
+# ---------------------------------------------------------------------------------------------------------------- C13
+harness("c13_latter_is_shift_append", {"s": "dna", "j": "nat"}, '''
+def c13_latter_is_shift_append(s, j):
+    k = len(s)
+    v = dna_to_number(s, False)
+    pv_bound(A(codes(s)), 0, P(s, 0), P(s, k), 4)
+    lat = obtain_latters(v, k)
+    t = s[1:] + "ACGT"[j]
+    w = dna_to_number(t, False)
+    pv_split(A(codes(s)), 0, P(s, 0), P(s, 1), P(s, k), 4)
+    pv_bound(A(codes(s)), 0, P(s, 1), P(s, k), 4)
+    mod_small(code(s[0]), ipow(4, k - 1), dnav(s, 1, k))
+    assert lat[j] == w, "j-th successor index == value of (k-mer without its first nucleotide) + j-th nucleotide"
+''', requires={"kmer": "len(s) >= 1", "nucleotide": "j < 4"}, lemmas=["pv_store_frame"])
+
+harness("c13_former_is_shift_prepend", {"s": "dna", "f": "nat"}, '''
+def c13_former_is_shift_prepend(s, f):
+    k = len(s)
+    v = dna_to_number(s, False)
+    pv_bound(A(codes(s)), 0, P(s, 0), P(s, k), 4)
+    fm = obtain_formers(v, k)
+    t = "ACGT"[f] + s[:-1]
+    w = dna_to_number(t, False)
+    pv_split(A(codes(t)), 0, P(t, 0), P(t, 1), P(t, k), 4)
+    assert fm[f] == w, "f-th predecessor index == value of f-th nucleotide + (k-mer without its last nucleotide)"
+''', requires={"kmer": "len(s) >= 1", "nucleotide": "f < 4"}, lemmas=["pv_store_frame"])
+
+harness("c13_successor_of_predecessor", {"v": "nat", "k": "nat", "f": "nat"}, '''
+def c13_successor_of_predecessor(v, k, f):
+    ipow_mono(4, 0, k - 1)
+    fm = obtain_formers(v, k)
+    u = fm[f]
+    lat = obtain_latters(u, k)
+    mod_small(f, ipow(4, k - 1), v // 4)
+    assert lat[v % 4] == v, "v is the (v mod 4)-th successor of each of its predecessors"
+''', requires={"order": "k >= 1", "vertex": "v < ipow(4, k)", "column": "f < 4"})
+
+harness("c13_predecessor_of_successor", {"u": "nat", "k": "nat", "j": "nat"}, '''
+def c13_predecessor_of_successor(u, k, j):
+    ipow_mono(4, 0, k - 1)
+    lat = obtain_latters(u, k)
+    v = lat[j]
+    fm = obtain_formers(v, k)
+    q = u // ipow(4, k - 1)
+    assert 0 <= q and q < 4 and fm[q] == u, "u is the (leading nucleotide of u)-th predecessor of each of its successors"
+''', requires={"order": "k >= 1", "vertex": "u < ipow(4, k)", "column": "j < 4"})
